@@ -590,6 +590,12 @@ type c12Reject struct {
 // a message its current state does not permit (optionally with more behind
 // it): the engine must report an error and write nothing of it.
 func runRejection(c *core.Ctx, t *tctx, role int, r *core.Rand) (res c12Reject) {
+	return runRejectionAt(c, t, role, r, -1)
+}
+
+// runRejectionAt: prefix >= 0 fixes the number of legal steps before the message that is
+// not permitted (0 = it is the engine's very first message whenever the local side opens).
+func runRejectionAt(c *core.Ctx, t *tctx, role int, r *core.Rand, prefix int) (res c12Reject) {
 	cfg := t.cfg[role]
 	a, b := netsim.Pipe()
 	a.EnableTap()
@@ -606,6 +612,9 @@ func runRejection(c *core.Ctx, t *tctx, role int, r *core.Rand) (res c12Reject) 
 	var accepted [][]byte
 	var script []string
 	limit := r.Intn(7)
+	if prefix >= 0 {
+		limit = prefix
+	}
 	for step := 0; ; step++ {
 		local, peer := localAgency(&e.cfg, cur)
 		if !local && !peer {
@@ -700,8 +709,30 @@ func runRejection(c *core.Ctx, t *tctx, role int, r *core.Rand) (res c12Reject) 
 		add("C12:reject:first-message-accepted", fmt.Sprintf("%s is not permitted in %s but advanced the state to %s", wrong, cur, tev.to))
 		return
 	}
-	if _, _, got := e.waitFrom(ti, func(x *evRec) bool { return x.kind == "error" }); !got {
+	// the refusal must be reported before anything is handed to the muxer
+	_, nev, got := e.waitFrom(ti+1, func(x *evRec) bool { return x.kind == "error" || x.kind == "seg" })
+	if !got {
 		add("C12:reject:no-error-event", fmt.Sprintf("the not permitted %s was not followed by the engine's error report", wrong))
+		return
+	}
+	if nev.kind == "seg" {
+		add("C12:reject:segment-after-rejection", fmt.Sprintf("%s was refused by the state machine in %s, but the send loop handed a segment of %d bytes to the muxer without reporting the error first", wrong, cur, nev.ln))
+		for i := 0; i < 50; i++ { // let the write land (already a violation)
+			runtime.Gosched()
+			time.Sleep(100 * time.Microsecond)
+		}
+		segs, _ := netsim.ParseSegs(a.TapBytes())
+		var stream []byte
+		for _, sg := range segs {
+			stream = append(stream, sg.Payload...)
+		}
+		items, _ := splitItems(stream)
+		for _, it := range items[min(len(accepted), len(items)):] {
+			if bytes.Equal(it, t.bytes[wrong]) {
+				add("C12:reject:written-to-wire", fmt.Sprintf("the refused %s (%x) is on the wire", wrong, clipBytes(it)))
+				break
+			}
+		}
 		return
 	}
 	wd := time.NewTimer(watchdog)
@@ -779,6 +810,7 @@ func RunC12(c *core.Ctx) {
 	if workers > 16 {
 		workers = 16
 	}
+	historyPhase(c, ts)
 	convs := make([]c12Result, len(jobs))
 	rejs := make([]c12Reject, len(jobs))
 	c.Parallel("case", len(jobs), workers, func(i int, r *core.Rand) {
